@@ -104,6 +104,14 @@ def converse(rng, n, wd, idx, mode=None):
     ihex.write(path, img, reclen=rng.choice([16, 32, 8, 255]), start=start)
     if same_path:
         os.utime(path, (1700000000, 1700000000))
+    # every other conversation runs with the library's loggers at DEBUG (into nowhere): logging must not change behaviour
+    import logging
+    logging.disable(logging.NOTSET if rng.random() < 0.5 else logging.CRITICAL)      # (drawn, not derived from idx)
+    lg = logging.getLogger("mysensors")
+    if not lg.handlers:
+        lg.addHandler(logging.NullHandler())
+    lg.setLevel(logging.DEBUG)
+    lg.propagate = False
     rec = {"img": list(img), "ft": ft, "fv": fv, "cfgs": [], "blks": [], "len": n, "hasloaded": False, "loaded": [],
            "err": "", "hasprev": False, "pimg": [], "pblocks": 0, "pblks": []}
     prev = _SHARED.get("last") if retarget else None
@@ -121,8 +129,12 @@ def converse(rng, n, wd, idx, mode=None):
             for nd in nodes:
                 gw.logic(f"{nd};255;0;0;17;{ver}\n")
         old = _SHARED.get("last") if (reuse and not retarget) else None
-        _SHARED.update(gw=gw, nodes=nodes, fw=(ft, fv))
-        if len(nodes) > 1 and idx % 2:
+        all_nodes = nodes
+        if retarget and len(nodes) > 1 and rng.random() < 0.6:
+            # only some of the nodes move to the new firmware id: the first one stays in the middle of the earlier download
+            nodes = nodes[1:]
+        _SHARED.update(gw=gw, nodes=all_nodes, fw=(ft, fv))
+        if len(nodes) > 1 and rng.random() < 0.5:
             # the image is loaded once, for the first node; the others are scheduled by type and version alone
             gw.update_fw(nodes[0], ft, fv, path)
             gw.update_fw(nodes[1:], ft, fv)
